@@ -611,7 +611,6 @@ func c15Wiring(c *Ctx) {
 	c.floor(rule, 4)
 }
 
-
 // cellSource: a table entry kept by value is copied into a local variable before its fields are read (`v := m[k]`):
 // the entry is what was stored, whole and once, into that variable; any other value is its own source.
 func cellSource(v ssa.Value) ssa.Value {
